@@ -18,6 +18,15 @@ pub(super) fn expand_pattern_node_ident(node_id: usize) -> Ident {
     Ident::new(&format!("__PATTERN_NODE_{}", node_id), Span::call_site())
 }
 
+/// A bare `..` inside a slice pattern is a rest marker, not an element.
+fn is_slice_rest(pattern: &Pattern) -> bool {
+    matches!(
+        pattern,
+        Pattern::Range(PatternRange { expr: syn::Expr::Range(r), .. })
+            if r.start.is_none() && r.end.is_none()
+    )
+}
+
 /// Generate pattern nodes using the IDs already in patterns
 pub(super) fn generate_pattern_nodes(
     pattern: &Pattern,
@@ -261,13 +270,11 @@ pub(super) fn generate_pattern_nodes(
             }
         }
         Pattern::Slice(PatternSlice { elements, .. }) => {
-            let rest = elements
-                .iter()
-                .any(|e| matches!(e, Pattern::Range(PatternRange { node_id, .. }) if *node_id == usize::MAX));
+            let rest = elements.iter().any(is_slice_rest);
 
             let child_refs: Vec<TokenStream> = elements
                 .iter()
-                .filter(|e| !matches!(e, Pattern::Range(PatternRange { node_id, .. }) if *node_id == usize::MAX))
+                .filter(|e| !is_slice_rest(e))
                 .map(|elem| generate_pattern_nodes(elem, node_defs, Some(&node_ident)))
                 .collect();
 
